@@ -149,6 +149,17 @@ def meta_cases(r, tr, tier):
                 t = tr.clone()
                 _set(t.streams[sidx][0].meta, path, v)
                 out.append(Case("meta-alter", f"s{sidx} {path}={json.dumps(v)}", t, meta=True))
+        # "version-mismatched metadata": the version each stream requires of each model, altered in this
+        # stream only (the other streams keep a compatible one): incompatible major, minor too new, unparsable
+        for m, ver in sorted(base["ovni"].get("require", {}).items()):
+            try:
+                a, b, c = (int(x) for x in ver.split("."))
+            except ValueError:
+                continue
+            for v in [f"{a + 1}.{b}.{c}", f"{a}.{b + 1}.{c}", f"{a}.x.{c}", f"{a}.{b}", ""]:
+                t = tr.clone()
+                t.streams[sidx][0].meta["ovni"]["require"][m] = v
+                out.append(Case("meta-alter", f"s{sidx} ovni.require.{m}={json.dumps(v)}", t, meta=True))
         text = tr.streams[sidx][0].json_text()
         for cut in sorted({1, len(text) // 3, len(text) // 2, len(text) - 2}):
             t = tr.clone()
